@@ -11,6 +11,7 @@ EXPLANATION = (
     "return term, through round(.,k) and math.degrees) whose slope/intercept equal the physical ones (K->C, K->F, Pa->bar, Pa->psi, rad->deg, m/s->kn) "
     "within 1e-3 relative. UNIT-TABLE / UNIT-EFFECT are decided by interpreting apply_preferred_units per (quantity, preference literal) on a message with one symbolic field per quantity and unit: recognised preferences rewrite value (through one converter applied to the field's own value) and label together, everything else is untouched. UNDECIDED: nothing of substance besides float rounding."
     ' [UNIT-APPLIED] in _call_decode_function every path to a return of the message passes apply_preferred_units (must-analysis; paths possible only with no preferences excepted); a bypass that depends on the message, the arguments or state that changes while decoding is a violation, one that depends on construction-time configuration only is undecided. [STATE-DEPS] (C16) configuration is not written after construction.'
+    ' Seventh round: every recognised preference is applied a second time to a message of the same PGN whose fields are in another order, in the same module environment: the same field of the matching quantity must be converted by the same converter (positions remembered per PGN number fail).'
 )
 ASSUMPTIONS = ["CPython ast parser", "sym.py def-use substitution over the loop body", "affine evaluation of + - * / round math.degrees", "physical conversion constants"]
 
